@@ -9,7 +9,11 @@ coq/Gen/GenLexer.v:
   * `escape_codes`,
   * the source text of every `re.compile` regex of readers.py (`regex_texts`, source order),
   * the order of the readers in `lex()` (`reader_order`),
-  * the literal / base pairs of the `if/elif` chain of `read_int_token` (`int_reader_cases`),
+  * the literal / base pairs of the `if/elif` chain of `read_int_token` (`int_reader_cases`), and
+    which of its returns are guarded by `try ... except ValueError: raise LexerError('Integer
+    literal too large', scan.cursor)` (`int_reader_guards`),
+  * the exception classes that `read_char_escape` turns into 'Invalid unicode codepoint'
+    (`chr_excepts`),
   * for every function of readers.py: the regex names it passes to `scan.match` and the string
     constants it passes to `scan.exact`, in source order (`reader_uses`),
   * the direction of the `symbol_tokens` sort (`symbol_sort_reverse`).
@@ -206,12 +210,17 @@ def read_readers(tree):
         raise CannotTranslate('readers.py', 'function defined twice')
     uses = [(f.name, _uses(f, set(names))) for f in functions]
     int_cases = None
+    chr_excepts = None
     for f in functions:
         if f.name == 'read_int_token':
             int_cases = _int_cases(f)
+        if f.name == 'read_char_escape':
+            chr_excepts = _chr_excepts(f)
     if int_cases is None:
         raise CannotTranslate('readers.read_int_token', 'not found')
-    return regexes, escape_codes, uses, int_cases, sort_reverse
+    if chr_excepts is None:
+        raise CannotTranslate('readers.read_char_escape', 'not found')
+    return regexes, escape_codes, uses, int_cases, chr_excepts, sort_reverse
 
 
 def _escape_codes(val):
@@ -285,7 +294,16 @@ def _uses(fn, regex_names):
     return [(k, v) for _, k, v in found]
 
 
+T_INT_GUARD = """try:
+    return X
+except ValueError:
+    raise LexerError('Integer literal too large', scan.cursor)
+"""
+
+
 def _int_cases(fn):
+    """-> [(regex name, base, guard)], guard = '' (plain return) or the name of the exception
+    that is turned into LexerError('Integer literal too large', scan.cursor)."""
     item = 'readers.read_int_token'
     if len(fn.body) != 1 or not isinstance(fn.body[0], ast.If):
         raise CannotTranslate(item, 'body is not a single if/elif chain')
@@ -296,11 +314,24 @@ def _int_cases(fn):
         ok = (isinstance(t, ast.NamedExpr) and isinstance(t.target, ast.Name)
               and isinstance(t.value, ast.Call) and ast.unparse(t.value.func) == 'scan.match'
               and len(t.value.args) == 1 and isinstance(t.value.args[0], ast.Name)
-              and len(node.body) == 1 and isinstance(node.body[0], ast.Return))
+              and len(node.body) == 1)
         if not ok:
             raise CannotTranslate(item, 'unexpected test/body')
         var = t.target.id
-        ret = node.body[0].value
+        stmt = node.body[0]
+        guard = ''
+        if isinstance(stmt, ast.Try):
+            if not (len(stmt.body) == 1 and isinstance(stmt.body[0], ast.Return)
+                    and len(stmt.handlers) == 1 and not stmt.orelse and not stmt.finalbody):
+                raise CannotTranslate(item, 'unexpected try statement')
+            shape = ast.parse(T_INT_GUARD).body[0]
+            shape.body[0] = stmt.body[0]
+            _same(stmt, ast.unparse(shape), item + ' (guard)')
+            guard = 'ValueError'
+            stmt = stmt.body[0]
+        if not isinstance(stmt, ast.Return):
+            raise CannotTranslate(item, 'branch body is neither a return nor a guarded return')
+        ret = stmt.value
         if not (isinstance(ret, ast.Call) and ast.unparse(ret.func) == 'tokens.IntToken'
                 and len(ret.args) == 1 and isinstance(ret.args[0], ast.Call)
                 and ast.unparse(ret.args[0].func) == 'int' and len(ret.args[0].args) == 2
@@ -308,13 +339,37 @@ def _int_cases(fn):
                 and isinstance(ret.args[0].args[1], ast.Constant)
                 and type(ret.args[0].args[1].value) is int):
             raise CannotTranslate(item, 'return is not tokens.IntToken(int(%s, <base>))' % var)
-        cases.append((t.value.args[0].id, ret.args[0].args[1].value))
+        cases.append((t.value.args[0].id, ret.args[0].args[1].value, guard))
         if not node.orelse:
             break
         if len(node.orelse) != 1 or not isinstance(node.orelse[0], ast.If):
             raise CannotTranslate(item, 'else branch is not an elif')
         node = node.orelse[0]
     return cases
+
+
+def _chr_excepts(fn):
+    """read_char_escape: the exception classes of the `try: return chr(codepoint)` that become
+    LexerError('Invalid unicode codepoint: ...', scan.cursor)."""
+    item = 'readers.read_char_escape'
+    tries = [n for n in ast.walk(fn) if isinstance(n, ast.Try)]
+    if len(tries) != 1:
+        raise CannotTranslate(item, 'expected exactly one try statement')
+    t = tries[0]
+    if not (len(t.body) == 1 and ast.unparse(t.body[0]) == 'return chr(codepoint)'
+            and len(t.handlers) == 1 and not t.orelse and not t.finalbody
+            and t.handlers[0].name is None):
+        raise CannotTranslate(item, 'unexpected try statement')
+    h = t.handlers[0]
+    if isinstance(h.type, ast.Name):
+        names = [h.type.id]
+    elif isinstance(h.type, ast.Tuple) and all(isinstance(e, ast.Name) for e in h.type.elts):
+        names = [e.id for e in h.type.elts]
+    else:
+        raise CannotTranslate(item, 'except clause is not a class or a tuple of classes')
+    _same(ast.Module(body=h.body, type_ignores=[]).body[0] if len(h.body) == 1 else ast.Pass(),
+          "raise LexerError(f'Invalid unicode codepoint: {codepoint:X}', scan.cursor)", item + ' (handler)')
+    return names
 
 
 # ------------------------------------------------------------------------------------------------
@@ -379,7 +434,8 @@ def _codes(s):
     return '[' + '; '.join(str(ord(c)) for c in s) + ']'
 
 
-def emit(enum_classes, flavors, regexes, escape_codes, uses, int_cases, sort_reverse, order):
+def emit(enum_classes, flavors, regexes, escape_codes, uses, int_cases, chr_excepts, sort_reverse,
+         order):
     o = []
     w = o.append
     w('(* GENERATED by tools/regen_lexer.py from %s, %s and %s -- DO NOT EDIT.' % (TOKENS, READERS, INIT))
@@ -423,7 +479,17 @@ def emit(enum_classes, flavors, regexes, escape_codes, uses, int_cases, sort_rev
     w('')
     w('(* readers.py: read_int_token: the if/elif chain, (regex name, base given to int()). *)')
     w('Definition int_reader_cases : list (string * Z) :=')
-    w('  [' + '; '.join('(%s, %d)' % (_cstr(n), b) for n, b in int_cases) + '].')
+    w('  [' + '; '.join('(%s, %d)' % (_cstr(n), b) for n, b, _ in int_cases) + '].')
+    w('')
+    w('(* readers.py: read_int_token: per case, the exception class of a `try: return ...` that is')
+    w('   re-raised as LexerError(\'Integer literal too large\', scan.cursor); "" = plain return. *)')
+    w('Definition int_reader_guards : list (string * string) :=')
+    w('  [' + '; '.join('(%s, %s)' % (_cstr(n), _cstr(g)) for n, _, g in int_cases) + '].')
+    w('')
+    w('(* readers.py: read_char_escape: exception classes of `try: return chr(codepoint)` that are')
+    w('   re-raised as LexerError(\'Invalid unicode codepoint: ...\', scan.cursor). *)')
+    w('Definition chr_excepts : list string :=')
+    w('  [' + '; '.join(_cstr(n) for n in chr_excepts) + '].')
     w('')
     w('(* readers.py: for every function, the scanner calls in source order:')
     w('   "M" scan.match(<regex name>), "E" scan.exact(<literal>), "R" scan.read(1), "L" linebreak. *)')
@@ -441,16 +507,17 @@ def emit(enum_classes, flavors, regexes, escape_codes, uses, int_cases, sort_rev
 
 def generate(repo_root=REPO):
     enum_classes, flavors = read_tokens(_parse(repo_root, TOKENS))
-    regexes, escape_codes, uses, int_cases, sort_reverse = read_readers(_parse(repo_root, READERS))
+    regexes, escape_codes, uses, int_cases, chr_excepts, sort_reverse = \
+        read_readers(_parse(repo_root, READERS))
     order = read_order(_parse(repo_root, INIT))
     known = [f for f, _ in uses]
     for r in order:
         if r not in known:
             raise CannotTranslate('lexer.lex', 'reader %s is not defined in readers.py' % r)
-    for n, _ in int_cases:
+    for n, _, _ in int_cases:
         if n not in [x for x, _ in regexes]:
             raise CannotTranslate('readers.read_int_token', 'unknown regex %s' % n)
-    return {OUT: emit(enum_classes, flavors, regexes, escape_codes, uses, int_cases,
+    return {OUT: emit(enum_classes, flavors, regexes, escape_codes, uses, int_cases, chr_excepts,
                       sort_reverse, order)}
 
 
